@@ -454,22 +454,23 @@ where
         use ReceiverStatus::*;
 
         loop {
-            let cancellation_status = match self.canceled_requests_pin_mut().poll_recv(cx) {
-                Poll::Ready(Some(request_id)) => {
-                    if let Some(span) = self.in_flight_requests_mut().remove_request(request_id) {
-                        let _entered = span.enter();
-                        tracing::info!("ResponseCancelled");
-                    }
-                    Ready
+            // Apply every pending server-side cancellation (requests dropped by the application)
+            // before reading the transport, so that a request read below is counted against the
+            // requests that are really still in flight.
+            while let Poll::Ready(Some(request_id)) = self.canceled_requests_pin_mut().poll_recv(cx)
+            {
+                if let Some(span) = self.in_flight_requests_mut().remove_request(request_id) {
+                    let _entered = span.enter();
+                    tracing::info!("ResponseCancelled");
                 }
-                // Pending cancellations don't block Channel closure, because all they do is ensure
-                // the Channel's internal state is cleaned up. But Channel closure also cleans up
-                // the Channel state, so there's no reason to wait on a cancellation before
-                // closing.
-                //
-                // Ready(None) can't happen, since `self` holds a Cancellation.
-                Poll::Pending | Poll::Ready(None) => Closed,
-            };
+            }
+            // Pending cancellations don't block Channel closure, because all they do is ensure
+            // the Channel's internal state is cleaned up. But Channel closure also cleans up
+            // the Channel state, so there's no reason to wait on a cancellation before
+            // closing.
+            //
+            // Ready(None) can't happen, since `self` holds a Cancellation.
+            let cancellation_status = Closed;
 
             let expiration_status = match self.in_flight_requests_mut().poll_expired(cx) {
                 // No need to send a response, since the client wouldn't be waiting for one
